@@ -666,3 +666,7 @@ impl From<MrtError> for std::io::Error {
         std::io::Error::other(e.to_string())
     }
 }
+
+#[cfg(feature = "verif-hooks")]
+#[path = "verif_hooks_c16.rs"]
+pub mod verif_hooks_c16;
